@@ -72,6 +72,7 @@ type pType struct {
 	Base   string      `json:"base,omitempty"`   // enum / alias underlying type
 	Assign bool        `json:"assign,omitempty"` // `type A = string`
 	Consts [][2]string `json:"consts,omitempty"` // enum: [name, literal]
+	Raw    string      `json:"raw,omitempty"`    // further declarations printed verbatim after this one
 }
 
 type pConfig struct {
@@ -208,6 +209,9 @@ func writeProject(p pProject, dir string) (map[string]string, error) {
 			} else {
 				sb.WriteString("type " + t.Name + " " + t.Base + "\n")
 			}
+		}
+		if t.Raw != "" {
+			sb.WriteString("\n" + t.Raw)
 		}
 		fb.decls = append(fb.decls, sb.String())
 	}
